@@ -41,7 +41,8 @@ DIMS = {
 for _d, _lst in DIMS.items():
     DIMS[_d] = [(u, R.factor_of_expression_text(u)) for u, _ in _lst]
 CUSTOM = {"length": ("len", "2", "cm"), "time": ("tick", "5", "ms"), "mass": ("lump", "250", "g"), "energy": ("quant", "3", "kJ")}
-FLOAT_VALUES = ["0", "0.0", "-2.5", "3", "7.25", "1e3", "-1E-2", "100", "0.5", "12345.678", "-0", "6.02e23"]
+FLOAT_VALUES = ["0", "0.0", "-2.5", "3", "7.25", "1e3", "-1E-2", "100", "0.5", "12345.678", "-0", "6.02e23",
+                "0.30000000000000004", "0.3333333333333333", "2.7182818284590451"]      # need 16-17 significant digits
 INT_VALUES = ["0", "-7", "3", "100", "-200", "5000", "12", "1"]
 STR_VALUES = ["x", "'y z'", '"dq w"', "bare2", "'it\\'s'", "0", "false", "none_"]
 
@@ -351,6 +352,12 @@ def _check(case, v):
         ok = exp is None and got is None
     elif case["kind"] in ("float", "int"):
         ok = not isinstance(got, (bool, str, list)) and close(got, exp, 1e-9, 1e-300)
+        last = case["mods"][-1]
+        if ok and case["kind"] == "float" and case["type"] in ("float", "float64") and not last.get("by_expr") and \
+                (last["unit"] is None or last["unit"] == unit):
+            # no conversion on the way: a double node holds exactly the double that was written
+            ok = float(got) == float(exp)
+            v.label("float_literal_compared_exactly")
         if case["kind"] == "int" and ok:
             # an integer node holds an integer, also after a conversion whose float factor is inexact (1 us -> 1000 ns),
             # and exactly the integer written when no conversion took place (also beyond 2**53)
